@@ -257,6 +257,43 @@ def ext_hook(it):
                     raise RaiseEx('error', f'struct.error: argument out of range for {fmt!r}')
                 return GFBytes(args[1].vec, nb, 'little' if fmt[0] == '<' else 'big')
             raise Fail(f'struct.pack({fmt!r}) of a data-dependent integer')
+        if dotted in ('struct.iter_unpack', 'struct.unpack', 'struct.unpack_from') and len(args) >= 2 and isinstance(args[0], K) and isinstance(args[1], SymBytes):
+            # the input cut into unsigned integers of 1 / 2 / 4 / 8 bytes in the format's byte order
+            import re as _re
+            fmt = args[0].v if isinstance(args[0].v, str) else args[0].v.decode()
+            order = 'little' if fmt[:1] == '<' else 'big'
+            body = fmt[1:] if fmt[:1] in '<>!=@' else fmt
+            items = []
+            for cnt, code in _re.findall(r'(\d*)([BHILQ])', body):
+                items += [sizes[code]] * (int(cnt) if cnt else 1)
+            if not items or _re.sub(r'\d*[BHILQ]', '', body) or (fmt[:1] in ('', '@', '=') and fmt[:1] not in '<>!' and any(x > 1 for x in items) and fmt[:1] != '='):
+                raise Fail(f'struct format {fmt!r} over the input is not modelled')
+            size = sum(items)
+            src = args[1]
+            if dotted == 'struct.unpack_from':
+                off = args[2].v if len(args) > 2 and isinstance(args[2], K) else 0
+                src = SymBytes(src.lo + off, src.lo + off + size, src.kind)
+            n_ = src.hi - src.lo
+            if dotted == 'struct.iter_unpack' and (size == 0 or n_ % size):
+                raise RaiseEx('error', f'struct.error: iterative unpacking requires a buffer of a multiple of {size} bytes')
+            if dotted != 'struct.iter_unpack' and n_ != size:
+                raise RaiseEx('error', f'struct.error: unpack requires a buffer of {size} bytes')
+            C = _c18()
+
+            def chunk(base):
+                out, pos = [], base
+                for w in items:
+                    bits = {}
+                    for i in range(w):
+                        p_ = i if order == 'little' else w - 1 - i
+                        for j in range(8):
+                            bits[8 * p_ + j] = frozenset([f'b{8 * (pos + i) + j}'])
+                    out.append(GF(C.Vec(bits)))
+                    pos += w
+                return ListV(out, tup=True)
+            if dotted == 'struct.iter_unpack':
+                return ListV([chunk(src.lo + k * size) for k in range(n_ // size)])
+            return chunk(src.lo)
         return None
     return hook
 
